@@ -31,6 +31,9 @@ def TKS(a, kt): return {"k": "kset", "a": a, "kt": kt}
 def TUN(*a): return {"k": "union", "as": list(a)}
 def TOPT(a): return TUN(a, TB("none"))
 def TLIT(*v): return {"k": "literal", "vs": list(v)}
+TANY = {"k": "any"}
+def TBGE(x): return {"k": "bounded", "n": "int", "lo": {"b": "ge", "x": x}, "hi": {"b": "none", "x": 0}}      # bounded(int, ge=x)
+def TBLT(x): return {"k": "bounded", "n": "int", "lo": {"b": "none", "x": 0}, "hi": {"b": "lt", "x": x}}      # bounded(int, lt=x)
 
 
 def attr(name, ty, dk="none", dv=None, dnc=False, invby=(), prep="none", iprep="none", item=""):
@@ -42,12 +45,13 @@ def prop(name, getter, cache=True, invby=()):
     return {"name": name, "getter": getter, "cache": cache, "invby": list(invby)}
 
 
-def cls(attrs, frozen=False, dnc=False, key="", props=(), bases=(), plain=False, bootstrap=False, frozen_arg=None, post_init=(), post_set=None, post_keep=None, attrs_arg=None, extra_body=()):
+def cls(attrs, frozen=False, dnc=False, key="", props=(), bases=(), plain=False, bootstrap=False, frozen_arg=None, post_init=(), post_set=None, post_keep=None, attrs_arg=None, extra_body=(), overflow=""):
     """frozen: what the class is (what the model reads); frozen_arg: what its decorator says (None: the same; False: nothing, i.e. inherited)"""
     return {"attrs": attrs, "frozen": frozen, "dnc": dnc, "key": key, "props": list(props), "bases": list(bases), "plain": plain,
             "bootstrap": bootstrap, "frozen_arg": frozen if frozen_arg is None else frozen_arg,
             "post_init": list(post_init), "post_set": list(post_set) if post_set else [],
             "post_keep": list(post_keep) if post_keep else [],
+            "overflow": overflow,          # init_overflow_attr: the Dict[str, Any] attribute receiving the constructor's unknown keywords
             "attrs_arg": list(attrs_arg) if attrs_arg else [], "extra_body": list(extra_body)}       # attrs_arg: the decorator's attrs=[...]; extra_body: verbatim lines       # __post_init__: read these properties, then self.<a> = FN[f](self.<a>)
 
 
@@ -57,6 +61,7 @@ def inherited(attrs):
 
 CHILD = cls([attr("v", TINT, "lit", I(1)), attr("ws", TL(TINT), "lit", L(), item="w")])          # (v defaults to 1: a keyword v=0 is falsy AND differs from the default)
 KCHILD = cls([attr("k", TSTR), attr("v", TINT, "lit", I(0))], key="k")
+OVER = cls([attr("a", TINT, "lit", I(0)), attr("extra", TD(TSTR, TANY), item="extra_item")], overflow="extra")          # unknown constructor keywords land in `extra`
 
 CH0_ = {"t": "obj", "c": "Child", "a": {"v": I(0), "ws": L()}, "x": {"_": MISSING}}
 INH_BASE = [attr("n", TINT, "lit", I(0)), attr("nums", TL(TINT), "factory", L(), item="num")]
@@ -72,6 +77,21 @@ SCENARIOS = {
     ])}},
     "list_int": {"root": "P", "classes": {"P": cls([
         attr("nums", TL(TINT), "lit", L(), item="num"),
+        attr("n", TINT, "lit", I(0)),
+    ])}},
+    # one list attribute explored up to THREE elements: equal elements separated by another one ([1, 2, 1]) exist only from length 3 on
+    "list_int3": {"root": "P", "maxlen": 3, "classes": {"P": cls([
+        attr("nums", TL(TINT), "lit", L(), item="num"),
+    ])}},
+    # bounded types with a bound of ZERO (inclusive below, exclusive above), as a scalar and as the element type of a list
+    "bounded_attr": {"root": "P", "classes": {"P": cls([
+        attr("lvl", TBGE(0), "lit", I(1)),
+        attr("neg", TBLT(0), "lit", I(-1)),
+        attr("lvls", TL(TBGE(0)), "factory", L(), item="lvls_item"),
+    ])}},
+    # a nested class with init_overflow_attr: keywords outside its attributes are constructor arguments too (they end up in `extra`)
+    "nested_overflow": {"root": "P", "classes": {"Over": OVER, "P": cls([
+        attr("over", TU("Over")),
         attr("n", TINT, "lit", I(0)),
     ])}},
     "set_str": {"root": "P", "classes": {"P": cls([
@@ -307,6 +327,7 @@ def tla_scenario(scn):
                      "spec": {a["name"]: {k: (a["dv_ct"] if k == "dv" and a.get("dv_ct") is not None else a["redefault"] if k == "dv" and a.get("redefault") is not None else a[k])
                                           for k in ("ty", "dk", "dv", "dnc", "invby", "prep", "iprep", "item")} for a in c["attrs"]},
                      "frozen": c["frozen"], "dnc": c["dnc"], "key": c["key"],
+                     "overflow": c.get("overflow", ""),
                      "post": bool(c.get("post_init") or c.get("post_set") or c.get("post_keep")),          # a __post_init__ hook the model does not describe
                      "props": [{k: p[k] for k in ("name", "getter", "cache", "invby")} for p in c["props"]]}
     return ct
@@ -338,6 +359,8 @@ def ty_src(T):
         return "Union[" + ", ".join(ty_src(a) for a in T["as"]) + "]"
     if k == "literal":
         return "Literal[" + ", ".join(val_src(v) for v in T["vs"]) + "]"
+    if k == "bounded":
+        return "bounded(int" + "".join(f", {T[e]['b']}={T[e]['x']}" for e in ("lo", "hi") if T[e]["b"] != "none") + ")"
     raise ValueError(T)
 
 
@@ -376,7 +399,7 @@ HEADER = """
 from typing import Any, Dict, List, Optional, Set, Union, Literal
 import dataclasses
 from spec_classes import Attr, spec_class, spec_property
-from spec_classes.types import KeyedList, KeyedSet
+from spec_classes.types import KeyedList, KeyedSet, bounded
 """
 
 
@@ -395,6 +418,8 @@ def class_src(cname, c, eager_all=False):
             args.append(f"do_not_copy={dnc_attrs!r}")
         if c.get("attrs_arg"):
             args.append(f"attrs={c['attrs_arg']!r}")
+        if c.get("overflow"):
+            args.append(f"init_overflow_attr={c['overflow']!r}")
         if c.get("bootstrap") or eager_all:
             args.append("bootstrap=True")
         lines.append("@spec_class" + (f"({', '.join(args)})" if args else ""))
@@ -478,6 +503,8 @@ def scalar_pool(scn, T):
         return [NONE, I(0), I(1), S("a"), F(1)], ["inc", "tostr", "boom"]
     if k == "literal":
         return [S("a"), S("b"), S("c"), I(1)], ["up", "tostr"]
+    if k == "bounded":
+        return [I(-1), I(0), I(1), S("a")], ["inc", "zero", "tostr"]
     raise ValueError(T)
 
 
@@ -487,6 +514,8 @@ def item_pool(scn, T):
         return [I(0), I(1), I(2), S("a")], ["inc", "tostr", "boom"], [[]], [[]]
     if T == TSTR:
         return [S("a"), S("b"), S(""), I(1)], ["up", "zero"], [[]], [[]]
+    if T["k"] == "bounded":
+        return [I(0), I(1), I(-1), S("a")], ["inc", "zero"], [[]], [[]]
     if T == TU("Child"):
         return [CH0, CH1, I(3), MISSING], ["bumpv", "zero", "none", "shared"], [[], kws(("v", I(2))), kws(("v", S("bad")))], [[], kws(("v", "inc")), kws(("v", "tostr"))]
     if T == TU("KChild"):
@@ -512,6 +541,13 @@ def pools_for(scn, root):
                 if a["prep"] == "plookup":
                     p["vp"] = p["vp"] + [S("s")]
                 p["kwfp"] = [[], kws(("v", "inc")), kws(("v", "tostr")), kws(("v", "boom"))]
+            if sub == "Over":
+                OV0 = OBJ("Over", a=I(0), extra=D())
+                OV1 = OBJ("Over", a=I(1), extra=D((S("retries"), I(1))))
+                p["vp"] = [OV0, OV1, I(3), MISSING]
+                p["kwp"] = [[], kws(("a", I(2))), kws(("retries", I(1))), kws(("a", I(1)), ("timeout", I(2))), kws(("timeout", I(2)), ("retries", I(0))), kws(("a", S("bad")))]
+                p["fp"] = ["same", "none", "boom"]
+                p["kwfp"] = [[], kws(("a", "inc"))]
             p["up"] = p["vp"]
         elif k in ("list", "klist", "set", "kset", "dict"):
             it = T["b"] if k == "dict" else T["a"]
